@@ -42,7 +42,8 @@ func main() {
 	pkgsF := flag.String("pkgs", "", "comma separated package patterns (relative to repo) containing harness functions")
 	fnsF := flag.String("fn", "", "comma separated harness function names or prefixes ending with *")
 	out := flag.String("out", "", "output JSON file")
-	jobs := flag.Int("j", 8, "parallel harnesses")
+	jobs := flag.Int("j", 4, "parallel harnesses")
+	workers := flag.Int("w", 8, "parallel path workers per harness")
 	verbose := flag.Bool("v", false, "verbose")
 	feasMs := flag.Int("feas-ms", 5000, "feasibility query cap")
 	assertMs := flag.Int("assert-ms", 60000, "obligation query cap")
@@ -108,7 +109,7 @@ func main() {
 			defer wg.Done()
 			sem <- struct{}{}
 			defer func() { <-sem }()
-			results[i] = runOne(ld, j.pkg, j.fn, gosym.Config{FeasMs: *feasMs, AssertMs: *assertMs, Verbose: *verbose, MaxPaths: *maxPaths}, *dump, *only)
+			results[i] = runOne(ld, j.pkg, j.fn, gosym.Config{FeasMs: *feasMs, AssertMs: *assertMs, Verbose: *verbose, MaxPaths: *maxPaths}, *dump, *only, *workers)
 		}(i, j)
 	}
 	wg.Wait()
@@ -151,15 +152,16 @@ func fatal(err error) {
 	os.Exit(2)
 }
 
-func runOne(ld *gosym.Loaded, pkg *ssa.Package, fn *ssa.Function, cfg gosym.Config, dump, only string) (res *HarnessResult) {
+func runOne(ld *gosym.Loaded, pkg *ssa.Package, fn *ssa.Function, cfg gosym.Config, dump, only string, workers int) (res *HarnessResult) {
 	t0 := time.Now()
 	e := gosym.NewEngine(ld.Prog, cfg)
 	e.Harness = fn.Name()
-	e.PF.DumpTo = dump
-	e.PF.Only = only
+	e.DumpTo = dump
+	e.OnlySolver = only
+	e.Workers = workers
 	e.Log = func(s string) { fmt.Fprintln(os.Stderr, fn.Name()+":"+s) }
 	res = &HarnessResult{Harness: fn.Name(), Pkg: pkg.Pkg.Path()}
-	defer e.PF.Close()
+	defer e.Close()
 	defer func() {
 		if r := recover(); r != nil {
 			res.Error = fmt.Sprint("engine crash: ", r)
@@ -188,16 +190,6 @@ func runOne(ld *gosym.Loaded, pkg *ssa.Package, fn *ssa.Function, cfg gosym.Conf
 	res.Merged = e.Merged
 	res.Bounds = e.Bounds
 	res.FeasUnknown = e.FeasUnknown
-	st2 := e.PF.Stats
-	tm := map[string]float64{}
-	wins := map[string]int64{}
-	for k, v := range st2.TimeNs {
-		tm[k] = float64(*v) / 1e9
-	}
-	for k, v := range st2.Wins {
-		wins[k] = *v
-	}
-	res.Solver = map[string]interface{}{"queries": st2.Queries, "cache_hits": st2.CacheHits, "sat": st2.Sat, "unsat": st2.Unsat,
-		"unknown": st2.UnknownN, "errors": st2.Errors, "disagreements": st2.Disagree, "time_s": tm, "wins": wins}
+	res.Solver = e.SolverStats()
 	return res
 }
